@@ -18,6 +18,11 @@ ASSUMPTIONS = ['argument parsing, process exit status and stream handling are ru
                'the file is read in text mode: the oracle reads it back the same way (universal newlines)']
 
 URI = '/akn/za/act/2009/1'
+# FRBR URIs as callers write them: capitals where the convention allows them (numbers, localities, subtypes, actors), language, date,
+# work component, portion - the CLI must hand the URI to the library as it is
+CLI_URIS = [URI, URI, URI, '/akn/za/act/gn/2020/R1234', '/akn/za-WC011/act/by-law/2020/parks', '/akn/za/judgment/ZACC/2022/15', '/akn/za/act/2009/1/eng@2010-01-01',
+            '/akn/za-cpt/act/by-law/2010/public-places/afr@2021-01-01', '/akn/na/judgment/nasc/2020/5/eng@2020-03-04', '/akn/za/act/1996/Constitution',
+            '/akn/za/act/2009/1/eng@2010-01-01/!schedule_1', '/akn/ZA/act/2009/1', '/akn/za/doc/policy/DOJ/2015-06-01/White-Paper', '/akn/un/statement/deliberation/unga/2011-03-09/65-251']
 ROOTS = gen.ROOTS7 + ['debatereport']
 
 def expected(uri, root, path, as_json, pretty):
@@ -96,7 +101,7 @@ def cases(ctx, n):
             # the whole file indented by a common margin (pasted from an email or a code block), blank lines with or without it
             m = ctx.rng.choice(['  ', '    ', ' ', '\t', '   '])
             t = ''.join((m + l if (l.strip() or ctx.rng.random() < 0.5) else l) for l in t.splitlines(True))
-        out.append((URI, root, t, ctx.rng.random() < 0.4, ctx.rng.random() < 0.4))
+        out.append((ctx.rng.choice(CLI_URIS), root, t, ctx.rng.random() < 0.4, ctx.rng.random() < 0.4))
     return out
 
 def correspondence(ctx):
@@ -105,7 +110,7 @@ def correspondence(ctx):
 def search(ctx, budget):
     os.environ['PYTHONUTF8'] = '1'
     sub = cases(ctx, ctx.n(32, 600) * budget) + [(URI, 'debatereport', 'x\n', False, False), (URI, 'debate', 'refused\n', False, False),
-                                                 (URI, 'act', 'SCHEDULES\n', True, False), (URI, 'act', 'PART 1\n  x\n', True, True)]
+                                                 (URI, 'act', 'SCHEDULES\n', True, False), (URI, 'act', 'PART 1\n  x\n', True, True)] + [(u, r, 'BODY\n  SEC 1. - Commencement\n    These regulations commence on publication.\n', False, k % 2 == 0) for k, u in enumerate(CLI_URIS[3:]) for r in ('act', 'judgment')]
     for c, r in zip(sub, impl.pmap(run_subproc, sub, chunk=2)):
         ctx.evaluations += 1; ctx.count('subprocess_runs'); ctx.count('exit_%d' % r[1])
         if not r[0]:
